@@ -129,6 +129,7 @@ func startOrigin() *origin {
 	}
 	o := &origin{addr: l.Addr().String()}
 	o.srv = &http.Server{Handler: http.HandlerFunc(func(w http.ResponseWriter, r *http.Request) {
+		io.Copy(io.Discard, r.Body) //nolint:errcheck
 		if d, err := strconv.Atoi(r.Header.Get("X-Delay")); err == nil && d > 0 {
 			time.Sleep(time.Duration(d) * time.Millisecond)
 		}
@@ -390,6 +391,20 @@ func runTiming(r *proxyRig, org *origin, sc scenario, hello []byte) (res timingR
 					}
 				}
 			}
+		case "headbody":
+			// a complete POST head announcing a 5-byte body that is sent later (op "body")
+			hb := fmt.Sprintf("POST http://%s/x HTTP/1.1\r\nHost: %s\r\nContent-Length: 5\r\nUser-Agent: c15\r\n\r\n", org.addr, org.addr)
+			if _, err := c.cur.Write([]byte(hb)); err != nil {
+				return fail("headbody write", err)
+			}
+			c.mark("doneheadbody")
+			c.inIdle = false
+			c.enterPhase("upstream", tb)
+		case "body":
+			if _, err := c.cur.Write([]byte("hello")); err != nil {
+				return fail("body write", err)
+			}
+			c.mark("done")
 		case "trickle":
 			// K single bytes of the current unit, one every D ms
 			for i := 0; i < a.K && c.closedAt < 0; i++ {
@@ -570,6 +585,8 @@ func genTiming(lim limits, tier string, r *rng.R) []scenario {
 		// slow origin: the request is fully received; the reply comes after every limit has elapsed
 		slow := max(lim.Idle, lim.Rhdr, lim.TLS, lim.PP) + 250
 		add(st, "upstream-slow", "upstream", false, with(action{Op: "head", K: -1, D: slow}, action{Op: "resp"})...)
+		// slow request body: the head is complete, the body arrives after every limit has elapsed
+		add(st, "body-slow", "upstream", false, with(action{Op: "headbody"}, action{Op: "sleep", D: slow}, action{Op: "body"}, action{Op: "resp"})...)
 		if st.MITM {
 			add(st, "mitm-peek-silent", "mpeek", false, with(action{Op: "connect"})...)
 			for _, k := range []int{1, 5, 100} {
@@ -762,6 +779,8 @@ func coqEvents(evs []mev) string {
 			parts[i] = "Done"
 		case "doneconnect":
 			parts[i] = "DoneConnect"
+		case "doneheadbody":
+			parts[i] = "DoneHeadBody"
 		case "reply":
 			parts[i] = "Reply"
 		}
